@@ -210,6 +210,83 @@ fn mk_case(sub: &str, g: &G, pool: &[String], steps: &[Step]) -> Case {
     c
 }
 
+
+/// wrapper independence INSIDE a grammar (statically typed): one inner parser -- it emits a non-fatal error, can fail with a
+/// user-supplied error, and leaves pending expectations -- is placed in a hole of four shapes (behind a failed alternative,
+/// behind an optional, in front of a failing sequence, behind a repetition) as itself, as &p, Box, Rc, Arc, boxed(),
+/// boxed().boxed(), Either::Left and Either::Right: every holder must give exactly the results of the bare parser (output,
+/// every error with reason, span and contexts, in parse and in check).
+fn holders_case(cs: &[char], l: &mut Local) -> CaseRes {
+    use chumsky::prelude::*;
+    type E<'a> = extra::Err<Rich<'a, char>>;
+    let s: String = cs.iter().collect();
+    let s: &str = &s;
+    fn inner<'a>() -> impl Parser<'a, &'a str, (char, bool), E<'a>> + Clone {
+        one_of::<_, &str, E>("0123456789")
+            .validate(|c: char, e, em| {
+                if c > '5' {
+                    em.emit(Rich::custom(e.span(), format!("big digit {}", c)));
+                }
+                c
+            })
+            .then(just('!').or_not())
+            .try_map(|(c, b): (char, Option<char>), sp| if c == '9' { Err(Rich::custom(sp, "nine is not allowed")) } else { Ok((c, b.is_some())) })
+            .labelled("digit-item")
+    }
+    fn show<T: std::fmt::Debug>(r: ParseResult<T, Rich<'_, char>>) -> String {
+        let (o, e) = r.into_output_errors();
+        format!("{:?} / {:?}", o, e.iter().map(|e| format!("{:?}@{:?} ctx {:?}", e.reason(), e.span(), e.contexts().collect::<Vec<_>>())).collect::<Vec<_>>())
+    }
+    fn shapes<'a, P: Parser<'a, &'a str, (char, bool), E<'a>> + Clone>(h: P, s: &'a str) -> Vec<String> {
+        let letter = || one_of::<_, &str, E>("ab").try_map(|c: char, sp| if c == 'b' { Err(Rich::custom(sp, "b is not a letter here")) } else { Ok((c, false)) });
+        let mut out = vec![];
+        macro_rules! run {
+            ($p:expr) => {{
+                let p = $p;
+                out.push(format!("parse: {} | check: {:?}", show(p.parse(s)), { let r = p.check(s); let n = r.errors().len(); (r.has_output(), n) }));
+            }};
+        }
+        run!(letter().or(h.clone()).then_ignore(any().repeated()));
+        run!(just('a').or_not().then(h.clone()).then_ignore(just(';').or_not()));
+        run!(h.clone().then(just(';')));
+        run!(just('a').repeated().collect::<Vec<char>>().then(h.clone()).then_ignore(end()));
+        run!(h.clone().separated_by(just(',')).at_least(1).collect::<Vec<_>>());
+        out
+    }
+    fn left<P>(p: P) -> either::Either<P, P> {
+        either::Either::Left(p)
+    }
+    fn right<P>(p: P) -> either::Either<P, P> {
+        either::Either::Right(p)
+    }
+    let base = shapes(inner(), s);
+    l.evals += 10;
+    let x = inner();
+    let holders: Vec<(&str, Vec<String>)> = vec![
+        ("&p", shapes(&x, s)),
+        ("Box::new(p)", shapes(Box::new(inner()), s)),
+        ("Rc::new(p)", shapes(Rc::new(inner()), s)),
+        ("Arc::new(p)", shapes(Arc::new(inner()), s)),
+        ("p.boxed()", shapes(inner().boxed(), s)),
+        ("p.boxed().boxed()", shapes(inner().boxed().boxed(), s)),
+        ("Either::Left(p)", shapes(left(inner()), s)),
+        ("Either::Right(p)", shapes(right(inner()), s)),
+        ("p.clone()", shapes(x.clone(), s)),
+    ];
+    for (name, got) in holders {
+        l.evals += 10;
+        l.bump("holder_inside_grammar_comparisons");
+        for (k, (b, g)) in base.iter().zip(got.iter()).enumerate() {
+            if b != g {
+                let mut c = Case::new(ID, "holders", &G::Empty, cs);
+                c.extra = serde_json::json!({ "holder": name, "shape": k });
+                return Err((c, Fail::new("C13/holder-inside-grammar", format!("shape #{} with the inner parser held as {}: {} -- held bare: {}", k, name, g, b))));
+            }
+        }
+    }
+    Ok(())
+}
+
 /// wrapper independence for CONFIGURABLE parsers: `(&p).configure(..)` (the ConfigParser / ConfigIterParser impls for
 /// references) must give what `p.configure(..)` gives, in parse, check and value-free positions (C15's static family)
 fn byref_cfg_case(cs: &[char], l: &mut Local) -> CaseRes {
@@ -227,6 +304,9 @@ fn byref_cfg_case(cs: &[char], l: &mut Local) -> CaseRes {
 }
 
 pub fn check_case(case: &Case, l: &mut Local) -> Result<(), Fail> {
+    if case.sub == "holders" {
+        return holders_case(&case.toks(), l).map_err(|(_, f)| f);
+    }
     if case.sub == "byref-configure" {
         return byref_cfg_case(&case.toks(), l).map_err(|(_, f)| f);
     }
@@ -643,6 +723,17 @@ pub fn run(tier: Tier, seed: u64) -> i32 {
         ctx.par_jobs(&chunks, |chunk, l| {
             for cs in chunk.iter() {
                 byref_cfg_case(cs, l)?;
+            }
+            Ok(())
+        });
+    }
+    // one inner parser held in every wrapper INSIDE four grammar shapes, every short string
+    {
+        let strings = all_strings(&['a', 'b', '3', '7', '9', '!', ';', ','], ctx.pick(3, 4));
+        let chunks: Vec<&[Vec<char>]> = strings.chunks(16).collect();
+        ctx.par_jobs(&chunks, |chunk, l| {
+            for cs in chunk.iter() {
+                holders_case(cs, l)?;
             }
             Ok(())
         });
